@@ -154,10 +154,18 @@ def refine_can_be_parse_error(facts, Sh, fn, lf):
         keep.add(s)
     if not keep:
         return False
+    pe = [d for d, n in cdiscr.items() if n == "ParseError"][0]
+    errval = look(base[3][0]) if base[0] == "agg" and base[2] == "Err" and base[3] else None
     for (t, c, _b) in lf.conds:
         if t[0] != "discr":
             continue
         x = look(t[1])
+        if errval is not None and norm(x) == norm(errval):
+            # Err(e) is returned and this path has tested which error e is
+            if c[0] == "eq" and c[1] != pe:
+                return False
+            if c[0] == "ne" and pe in c[1]:
+                return False
         if norm(x) == norm(base):
             if c == ("eq", 0) or (c[0] == "ne" and 1 in c[1]):
                 return False
@@ -175,7 +183,7 @@ def reset(ctx):
     init = initial_values(ctx)
     reset_fns = find_reset_fns(ctx, init)
     ctx.note("reset helpers recognised: %s" % {k.split("::")[-1]: sorted(v) for k, v in reset_fns.items()})
-    fn, lv = leaves(ctx, conn.TRY_READ)
+    fn, lv = leaves(ctx, conn.TRY_READ, lower=True)    # a reset inside a map_err / or_else closure is a reset of try_read
     Sh = Shapes(facts)
     n = 0
     bad = {}
@@ -260,8 +268,10 @@ def server_400_arm(ctx, rule):
                     pass
         if rk and rk[0] == "prop":
             continue
+        if rk and rk[0] == "Err" and look(rk[1])[0] == "agg" and look(rk[1])[2] == "Overflow":
+            continue     # the counter's overflow guard written as an explicit match (C09 R09.1/R09.11 deal with it)
         yields_nothing = rk is not None and rk[0] == "Ok" and is_call(look(rk[1]), "new") and "Vec" in look(rk[1])[1]
-        drained = len(pops) >= 1
+        drained = len(pops) >= 1 or srv.from_fn_drains(facts, lf, ("for_each", "count", "last", "extend", "collect", "fold"))
         ctx.ob(rule, "400|one-bad-request-queued", ok_new and ok_enq, "ParseError arm: exactly one Response::new(_, BadRequest) is queued (new=%d, enqueue=%d)" % (len(news), len(enq)), fn.loc(lf.bb))
         ctx.ob(rule, "400|body-is-error-display", body_ok, "its body is formatted from Display of the ParseError payload matched", fn.loc(lf.bb))
         ctx.ob(rule, "400|stays-open", not closed, "the connection is not closed by a parse error", fn.loc(lf.bb))
